@@ -6,7 +6,7 @@
 From Coq Require Import ZArith List Bool Lia.
 From ScV Require Import Base.CInt Gen.ContainersC09 Gen.AvlStepsC09 Gen.KeyValueC09 Gen.AvlBalance.
 From ScV Require Import C09.PoolModel C09.PoolProofs C09.ListModel C09.HashModel C09.HashArrayModel C09.RecycleModel
-  C09.KeyValueModel C09.AvlModel.
+  C09.KeyValueModel C09.AvlModel C09.AvlSeqModel C09.AvlRelinkModel.
 Import ListNotations.
 Local Open Scope Z_scope.
 
@@ -454,6 +454,42 @@ Section AvlTies.
   Proof.
     intros Hl Hr H0 H1 H2. unfold c9_avl_calc_count, mk. rewrite (node_count pl l Hl), (node_count pr r Hr).
     cbn [cnt]. rewrite (u32_id (cnt key l + cnt key r)) by lia. rewrite u32_id by lia. reflexivity.
+  Qed.
+
+  (* Which fields of the node OBJECT the insert functions overwrite before they link it in.  An object may carry stale
+     left / right / count (unlinked earlier, or never initialised): avl_clear_node sets exactly the fields `clear_node`
+     sets (left = right = NULL, count = 1); avl_insert_top, avl_insert_before and avl_insert_after call it on the new node
+     on the path that links the node in (so what they link in is `leaf_of o`), and set its prev / next / parent;
+     avl_init_node stores the item and nothing else (`init_node`; it makes no call of avl_clear_node: the slice has no such
+     ghost output). *)
+  Theorem gen_avl_insert_clears (o : nobj key) np itemp olditem pl pr node nprev nprevnext head nnext nnextprev tail treep :
+    np <> 0 ->
+    let '(cl, cr, cc) := c9_avl_clear_node in
+    nullp cl (o_left key (clear_node key o)) /\ nullp cr (o_right key (clear_node key o)) /\ cc = o_count key (clear_node key o) /\
+    leaf_of key o = N E (o_item key o) cc E /\
+    (let '(ret, it, l, r, c) := c9_avl_init_node np itemp olditem pl pr (o_count key o) in
+     ret = np /\ it = itemp /\ l = pl /\ r = pr /\ c = o_count key (init_node key o (o_item key o))) /\
+    (let '(ret, p, n, pa, hd, tl, top, cl_called, cl_arg) := c9_avl_insert_top np in
+     cl_called = 1 /\ cl_arg = np /\ ret = np /\ p = 0 /\ n = 0 /\ pa = 0 /\ hd = np /\ tl = np /\ top = np) /\
+    (let '(ret, n, pa, p, pn, hd, ndprev, ndleft, cl_called, cl_arg, rb_called, rb_tree, rb_node) :=
+         c9_avl_insert_before_link np node nprev head nprevnext treep in
+     cl_called = 1 /\ cl_arg = np /\ ret = np /\ n = node /\ pa = node /\ p = nprev /\ ndprev = np /\ ndleft = np /\
+     rb_called = 1 /\ rb_tree = treep /\ rb_node = node /\
+     (nprev <> 0 -> pn = np /\ hd = head) /\ (nprev = 0 -> hd = np /\ pn = nprevnext)) /\
+    (let '(ret, p, pa, n, nxp, tl, ndnext, ndright, cl_called, cl_arg, rb_called, rb_tree, rb_node) :=
+         c9_avl_insert_after_link np node nnext tail nnextprev treep in
+     cl_called = 1 /\ cl_arg = np /\ ret = np /\ p = node /\ pa = node /\ n = nnext /\ ndnext = np /\ ndright = np /\
+     rb_called = 1 /\ rb_tree = treep /\ rb_node = node /\
+     (nnext <> 0 -> nxp = np /\ tl = tail) /\ (nnext = 0 -> tl = np /\ nxp = nnextprev)).
+  Proof.
+    intros Hnp. unfold c9_avl_clear_node, c9_avl_init_node, c9_avl_insert_top, c9_avl_insert_before_link, c9_avl_insert_after_link, nullp, z2b.
+    cbn [clear_node init_node o_left o_right o_count o_item leaf_of as_tree].
+    destruct (Z.eqb_spec np 0) as [Q|Q]; [contradiction|]. cbn [negb].
+    split; [split; auto|]. split; [split; auto|]. split; [reflexivity|]. split; [reflexivity|].
+    split; [repeat split; auto|]. split; [repeat split; auto|].
+    split.
+    - destruct (Z.eqb_spec nprev 0) as [A|A]; cbn [negb]; repeat split; auto; try contradiction; intros; congruence.
+    - destruct (Z.eqb_spec nnext 0) as [A|A]; cbn [negb]; repeat split; auto; try contradiction; intros; congruence.
   Qed.
 End AvlTies.
 
